@@ -35,6 +35,9 @@ Record case := {
   c_leftovers : nat;                (* files left in the FIFO directory *)
   c_stray : nat;                    (* evaluator calls / results outside any callback *)
   c_files_ok : bool;                (* optimizer.stdout / stderr files exist where configured, in both runs *)
+  c_framing_ok : bool;              (* framing probe: every message fed to _JSONPipeCommunicator.read through a real FIFO in
+                                       pieces (cut at every offset, at multiples of the pipe capacity) came back exactly;
+                                       the model starts above the framing: "FIFOs deliver whole messages" *)
   c_wall_ms : Z
 }.
 
@@ -168,7 +171,7 @@ Definition model_agrees (c : case) : bool :=
 
 (* ---- the property's clauses on the observation alone -------------------------------------------- *)
 Definition property_holds (c : case) : bool :=
-  c_cfg_rt c && c_child_started c && Nat.eqb (c_stray c) 0 && c_files_ok c &&
+  c_cfg_rt c && c_child_started c && Nat.eqb (c_stray c) 0 && c_files_ok c && c_framing_ok c &&
   (* (a) no fault: same callbacks, evaluations, results, exit code, optimum *)
   (faulted c ||
    (list_eqb exchange_eqb (c_ext c) (c_inproc c) && same_outcome (c_ext_out c) (c_inproc_out c) &&
